@@ -251,6 +251,15 @@ inline FloatType ParseFloat(const char *nptr, char **endptr) {
     }
     // Return signed and scaled floating point result.
     value = frac ? (value / scale) : (value * scale);
+    // the significand may push the result out of range even though the
+    // exponent alone is in range (e.g. "100e37" for float)
+    if (CheckRange && value == std::numeric_limits<FloatType>::infinity()) {
+      errno = ERANGE;
+      if (endptr) {
+        *endptr = (char *)p;  // NOLINT(*)
+      }
+      return std::numeric_limits<FloatType>::infinity();
+    }
   }
   // Consume 'f' suffix, if any
   if (*p == 'f' || *p == 'F') {
